@@ -68,6 +68,26 @@ theorem lookup_alInsert_ne {α β : Type} [BEq α] [LawfulBEq α] {k k' : α} {v
         rw [hk]; exact h
       · simp only [List.lookup, hneq]; exact ih h
 
+theorem lookup_alInsert_self {α β : Type} [BEq α] [LawfulBEq α] (k : α) (v : β) (l : List (α × β)) :
+    (alInsert k v l).lookup k = some v := by
+  induction l with
+  | nil => simp [alInsert]
+  | cons hd tl ih =>
+    obtain ⟨k0, v0⟩ := hd
+    unfold alInsert
+    split
+    · simp [List.lookup]
+    · rename_i hne
+      simp only [List.lookup]
+      have : (k == k0) = false := by
+        cases hk : (k == k0) with
+        | false => rfl
+        | true =>
+          have e : k = k0 := by simpa using hk
+          subst e
+          simp at hne
+      rw [this]; exact ih
+
 /-! ## the no-panic invariant (C13) -/
 
 /-- Per-entry invariant: recorded signatures are 65 bytes long; an entry that carries the node's own
